@@ -13,6 +13,10 @@
     the heading -> title-index map that the *same* forward loop also fills, so the index it finds belongs to a title at or
     before the element (a map completed by an earlier pass yields the *last* title with that text; with repeated heading texts
     — "Notes", "Summary" — children attach to a later section and the graph chunker emits them out of order).
+ R6 fragments leave in order: in `split_by_sentences` the output vector is fed through the accumulator `current`; a push of anything
+    else (the sentence itself) inside the loop is reached only after the accumulator was flushed in that iteration (a push derived
+    from `current`) or found empty (`current.is_empty()` true edge). Emitting a sentence past a non-empty accumulator puts it
+    before the text that preceded it, and the accumulator goes on absorbing sentences that follow it.
 Not decided: exactly-once coverage of elements, order, fragment concatenation (value-level).
 """
 from .. import lib as L
@@ -26,6 +30,7 @@ H = "pipeline::hybrid_chunking::HybridChunker::"
 
 def run(ctx):
     r5_nearest_preceding(ctx)
+    r6_fragments_in_order(ctx)
     facts = ctx.facts
     mk = ctx.fn(H + "make_chunk", "anchor")
     n = 0
@@ -135,3 +140,65 @@ def r5_nearest_preceding(ctx):
         if ok:
             ctx.ok("R5", key, "the map is filled by the same forward loop that reads it", fn.where(h))
     ctx.floor("R5", "parent-assigning loops in ElementGraph::build", n, 1)
+
+
+def r6_fragments_in_order(ctx):
+    from .. import cfg as CF
+    fn = ctx.fn("pipeline::hybrid_chunking::split_by_sentences", "R6")
+    g = CF.cfg(fn)
+    fl = FL.flow(fn)
+    names = fn.local_names()
+    cur = [l for l, nme in names.items() if nme == "current"]
+    frs = [l for l, nme in names.items() if nme == "fragments"]
+    if not ctx.floor("R6", "accumulator `current` and output `fragments` in split_by_sentences", min(len(cur), len(frs)), 1):
+        return
+    loops = g.loops()
+    pushes = []
+    for b, c, a, d in L.calls_to(fn, ["Vec::<T, A>::push"]):
+        r = L.recv_of(fn, a)
+        if r and r[0] in frs:
+            # the pushed value is `current` itself, or the result of a call handed (a reference to) `current`
+            # (`mem::take(&mut current)`, `current.clone()`, `mem::replace(&mut current, ..)`)
+            from_cur = False
+            pl = FL.op_place(a[1])
+            if pl is not None and not pl[1]:
+                if pl[0] in cur:
+                    from_cur = True
+                for dd in fl.defs.get(pl[0], ()):
+                    if dd[0] == "stmt":
+                        rv = fn.blocks[dd[1]][0][dd[2]][2]
+                        if rv[0] == "use" and FL.op_place(rv[1]) and FL.op_place(rv[1])[0] in cur:
+                            from_cur = True
+                    elif dd[0] == "call":
+                        for o in fn.term(dd[1])[2]:
+                            p2 = FL.op_place(o)
+                            if p2 is not None and (p2[0] in cur or (set(cur) & fl.pts.get(p2[0], set()))):
+                                from_cur = True
+            pushes.append((b, from_cur))
+    if not ctx.floor("R6", "pushes onto `fragments`", len(pushes), 2):
+        return
+    flush = [b for b, fc in pushes if fc]
+    empt_edges = []
+    for b, c, a, d in L.calls_to(fn, ["is_empty"]):
+        r = L.recv_of(fn, a)
+        if r and r[0] in cur and d:
+            te, fe = L.bool_edges(fn, d[0])
+            empt_edges += te
+    n = 0
+    for b, fc in pushes:
+        body = [bd for h, bd in loops.items() if b in bd]
+        if fc or not body:
+            continue
+        n += 1
+        h = [h for h, bd in loops.items() if b in bd][0]
+        key = "split_by_sentences:direct-push#%d:after-flush" % n
+        w = CF.must_pass(fn, [b], flush, guard_edges=empt_edges, start=h)
+        if w is None:
+            ctx.ok("R6", key, "reached only after the accumulator was flushed or found empty", fn.where(b))
+        else:
+            ctx.violation("R6", key, "a value that does not come from the accumulator `current` is pushed onto the output while `current` "
+                          "may still hold earlier sentences (no flush and no `current.is_empty()` on the way): it is emitted *before* the "
+                          "text that preceded it, and `current` goes on absorbing the sentences that follow it — fragments no longer "
+                          "concatenate back to the element in order", fn.where(b))
+    if n == 0:
+        ctx.ok("R6", "split_by_sentences:output-fed-through-accumulator", "every push inside the loop comes from `current`", fn.where())
